@@ -215,7 +215,13 @@ func (c04) Exec(c *sim.Case, env *Env) []sim.Violation {
 			for _, x := range r1 {
 				idx[x.ID+"\x00"+x.Type] = x
 			}
+			hdrEdit := kinds[ds.Slot]["hdr"] || kinds[ds.Slot]["hdrpn"] || kinds[ds.Slot]["fhdr"]
+			ftrEdit := kinds[ds.Slot]["ftr"] || kinds[ds.Slot]["ftrpn"] || kinds[ds.Slot]["fftr"]
 			for _, x := range r0 {
+				// setting a header (footer) replaces the definition of that kind, relationship included
+				if (hdrEdit && x.Type == inspect.RelHdr) || (ftrEdit && x.Type == inspect.RelFtr) {
+					continue
+				}
 				y, ok := idx[x.ID+"\x00"+x.Type]
 				switch {
 				case !ok:
